@@ -74,11 +74,12 @@ func verifAdjacentObjects(block Block, k, maxSize, maxCuts int, image func() []b
 func Verif_C01_W1_SectorWriter() {
 	// quick: 4-byte sectors (the smallest size at which an object's tail can overwrite its own
 	// head inside a shared sector image), sizes 0..S+2, at most one cut per object;
-	// thorough: sector sizes 1, 2, 4, sizes 0..2S+1, up to two cuts, three objects
+	// thorough: sector sizes 1, 2, 4, sizes 0..S+2, at most one cut, three objects
 	S, maxSize, maxCuts := 4, 6, 1
 	if vnd.Thorough() {
+		// (sizes up to 2S+1 with two cuts and three objects exceed 400 000 paths)
 		S = []int{1, 2, 4}[vnd.Choose(3)]
-		maxSize, maxCuts = 2*S+1, 2
+		maxSize, maxCuts = S+2, 1
 	}
 	blockSectors := int64(2) // quick: 8-byte blocks, so that running out of space is reachable
 	if vnd.Thorough() {
